@@ -3,6 +3,20 @@ use crate::knox::short_group_sig_core::short_group_traits::ShortGroupSignatureSc
 use crate::presentation::verifiable_encryption_decryption::VerifiableEncryptionDecryptionBuilder;
 use log::debug;
 
+/// The claim a predicate statement refers to, or an error when the (verifier supplied)
+/// schema names a statement or claim index the holder's credentials do not have
+fn referenced_claim<'m>(
+    messages: &'m IndexMap<&String, Vec<(ClaimData, ProofMessage<Scalar>)>>,
+    statement_id: &str,
+    reference_id: &String,
+    claim: usize,
+) -> CredxResult<&'m (ClaimData, ProofMessage<Scalar>)> {
+    messages
+        .get(reference_id)
+        .and_then(|m| m.get(claim))
+        .ok_or_else(|| Error::InvalidPresentationData(format!("statement with id '{}' references claim '{}' of '{}' which doesn't exist or is not a signature statement", statement_id, claim, reference_id)))
+}
+
 impl<S: ShortGroupSignatureScheme> Presentation<S> {
     /// Create a new presentation composed of 1 to many proofs
     pub fn create(
@@ -48,7 +62,7 @@ impl<S: ShortGroupSignatureScheme> Presentation<S> {
                 };
                 for (index, claim) in cred.claims.iter().enumerate() {
                     if matches!(messages[id][index].1, ProofMessage::Revealed(_)) {
-                        let label = ss.issuer.schema.claim_indices.get_index(index).unwrap();
+                        let label = ss.issuer.schema.claim_indices.get_index(index).ok_or_else(|| Error::InvalidPresentationData(format!("signature statement with id '{}' has no label for claim '{}'", id, index)))?;
                         dm.insert((*label).clone(), claim.clone());
                     }
                 }
@@ -76,14 +90,14 @@ impl<S: ShortGroupSignatureScheme> Presentation<S> {
                     builders.push(builder.into());
                 }
                 Statements::Revocation(a) => {
-                    let (_, proof_message) = messages[&a.reference_id][a.claim];
+                    let (_, proof_message) = *referenced_claim(&messages, id, &a.reference_id, a.claim)?;
                     if matches!(proof_message, ProofMessage::Revealed(_)) {
                         return Err(Error::InvalidClaimData(
                             "revealed claim cannot be used for set membership proofs",
                         ));
                     }
-                    let credential = if let PresentationCredential::Signature(credential) =
-                        &credentials[&a.reference_id]
+                    let credential = if let Some(PresentationCredential::Signature(credential)) =
+                        credentials.get(&a.reference_id)
                     {
                         credential
                     } else {
@@ -100,14 +114,14 @@ impl<S: ShortGroupSignatureScheme> Presentation<S> {
                     builders.push(builder.into());
                 }
                 Statements::Membership(m) => {
-                    let (_, proof_message) = messages[&m.reference_id][m.claim];
+                    let (_, proof_message) = *referenced_claim(&messages, id, &m.reference_id, m.claim)?;
                     if matches!(proof_message, ProofMessage::Revealed(_)) {
                         return Err(Error::InvalidClaimData(
                             "revealed claim cannot be used for set membership proofs",
                         ));
                     }
-                    let credential = if let PresentationCredential::Membership(credential) =
-                        &credentials[&m.id]
+                    let credential = if let Some(PresentationCredential::Membership(credential)) =
+                        credentials.get(&m.id)
                     {
                         credential
                     } else {
@@ -124,7 +138,7 @@ impl<S: ShortGroupSignatureScheme> Presentation<S> {
                     builders.push(builder.into());
                 }
                 Statements::Commitment(c) => {
-                    let (_, proof_message) = messages[&c.reference_id][c.claim];
+                    let (_, proof_message) = *referenced_claim(&messages, id, &c.reference_id, c.claim)?;
                     if matches!(proof_message, ProofMessage::Revealed(_)) {
                         return Err(Error::InvalidClaimData(
                             "revealed claim cannot be used for commitment",
@@ -138,7 +152,7 @@ impl<S: ShortGroupSignatureScheme> Presentation<S> {
                     builders.push(builder.into());
                 }
                 Statements::VerifiableEncryption(v) => {
-                    let (_, proof_message) = messages[&v.reference_id][v.claim];
+                    let (_, proof_message) = *referenced_claim(&messages, id, &v.reference_id, v.claim)?;
                     if matches!(proof_message, ProofMessage::Revealed(_)) {
                         return Err(Error::InvalidClaimData(
                             "revealed claim cannot be used for verifiable encryption",
@@ -157,7 +171,7 @@ impl<S: ShortGroupSignatureScheme> Presentation<S> {
                     builders.push(builder.into());
                 }
                 Statements::VerifiableEncryptionDecryption(v) => {
-                    let (claim_data, proof_message) = &messages[&v.reference_id][v.claim];
+                    let (claim_data, proof_message) = referenced_claim(&messages, id, &v.reference_id, v.claim)?;
                     if matches!(proof_message, ProofMessage::Revealed(_)) {
                         return Err(Error::InvalidClaimData(
                             "revealed claim cannot be used for verifiable encryption",
@@ -201,8 +215,11 @@ impl<S: ShortGroupSignatureScheme> Presentation<S> {
                 } else {
                     continue;
                 };
-                let builder_index = id_to_builder[&r.reference_id];
+                let builder_index = *id_to_builder.get(&r.reference_id).ok_or_else(|| Error::InvalidPresentationData(format!("range proof statement with id '{}' references a commitment '{}' that doesn't exist", id, r.reference_id)))?;
                 if let PresentationBuilders::Commitment(commitment) = &builders[builder_index] {
+                    if commitment.statement.reference_id != r.signature_id || commitment.statement.claim != r.claim {
+                        return Err(Error::InvalidPresentationData(format!("range proof statement with id '{}' and its commitment '{}' refer to different claims", id, r.reference_id)));
+                    }
                     if let ClaimData::Number(n) = sig
                         .claims
                         .get(r.claim)
